@@ -55,8 +55,9 @@ Section Hash.
 Variable hash : dm_key -> N.
 
 (** [DMApplyCache::bucket] *)
-Definition bucket (c : dm_cache) (k : dm_key) : positive :=
-  N.succ_pos (N.modulo (hash k) (Npos (dm_nb c))).
+Definition bucket_ix (nb : positive) (k : dm_key) : positive :=
+  N.succ_pos (N.modulo (hash k) (Npos nb)).
+Definition bucket (c : dm_cache) (k : dm_key) : positive := bucket_ix (dm_nb c) k.
 
 (** [EntryGuard::get]: operand counts, operands, operator, value counts *)
 Definition entry_matches (en : dm_entry) (k : dm_key) (ne nn : nat) : bool :=
